@@ -218,7 +218,7 @@ func (b *bridgeHist) mineDeposits(nDep int, coinbaseDeposit bool) *world.BtcBloc
 		pends = append(pends, pend{len(txs), d, nil})
 		txs = append(txs, tx)
 	}
-	for f := r.Intn(3); f > 0; f-- {
+	for f := r.Intn(3); f > 0 && !(coinbaseDeposit && nDep == 0); f-- { // (coinbase deposit, 0 others) = a block of one transaction
 		txs = append(txs, b.bc.FillerTx())
 	}
 	blk := b.bc.Mine(txs)
